@@ -16,11 +16,11 @@ LEVEL_TEXT = ("Held on every generated system of the run: operator kinds x metho
 LEVEL_NOTE = "Trusts torch.linalg.solve/svdvals on the dense shadow; tolerances are C*kappa*stopping tolerance with C=20."
 RULE = ("cases drawn by seeded sampling over operator kind {dense, mv, mv_rmv, all, herm_mv, add, sub, mul, matmul, adj, adj_mv, jac} x "
         "method {None, exactsolve, custom_exactsolve, cg, bicgstab, gmres, broyden1} x emode {none, E, EM} x batch pattern x dtype x "
-        "spectrum {spd, indef, nonherm} x n x ncols x tolerance setting x special right-hand sides; non-trivial = B != 0 and the "
+        "spectrum {spd, indef, nonherm (random singular vectors), nonherm_pd (positive-definite Hermitian part)} x n x ncols x tolerance setting x special right-hand sides; non-trivial = B != 0 and the "
         "solver evaluated >= 2 operator products (counted by the spy operator) or used the dense path with n >= 2")
 MIN_NONTRIVIAL = {"quick": 600, "thorough": 8000}
 ASSUMPTIONS = ["cond(A - e_c M) <= 40 for every column and batch element (generator re-draws E otherwise)",
-               "float32 cases request rtol=1e-4/atol=1e-5 (attainable in working precision)",
+               "float32 cases request rtol=1e-4/atol=1e-5 (attainable in working precision)", "broyden1 is not given 1e-11-scaled right-hand sides (float32 underflow in the quasi-Newton update)",
                "must-be-silent classes: direct methods always; cg on Hermitian-flagged SPD systems with real shifts keeping them SPD, "
                "or through the normal equations when cond<=6; bicgstab on SPD and on non-Hermitian systems with cond<=12 and n>=2; "
                "broyden1 when the total number of unknowns <= 40; gmres never (only 'silent => converged')"]
@@ -43,7 +43,7 @@ def cases(seed, tier):
         d["emode"] = rng.choice(["none", "E", "EM"])
         d["batch"] = rng.randrange(len(gen.BATCH_TUPLES_4))
         d["dtype"] = rng.choice(["float64", "float64", "complex128", "float32"])
-        d["spectrum"] = rng.choice(["spd", "indef", "nonherm"])
+        d["spectrum"] = rng.choice(["spd", "indef", "nonherm", "nonherm_pd"])
         d["n"] = rng.choice(sizes)
         d["ncols"] = rng.choice([1, 2, 3])
         d["tol"] = rng.choice(["default", "tight"])
@@ -53,7 +53,19 @@ def cases(seed, tier):
             d["batch"] = rng.choice([0, 1, 2, 3])
         if d["method"] == "broyden1" and d["n"] > 12:
             d["n"] = rng.choice([2, 5, 6, 8])
+        if d["method"] == "broyden1" and d["special"] == "tinyB":
+            d["special"] = None      # 1e-11-scaled data underflows in the float32 quasi-Newton update: outside the stated bounds
         out.append(d)
+    # directed shapes: batch size equal to the matrix size and ncols == n (dense solve must not read B as a batch of vectors)
+    k = 0
+    for n in (2, 3):
+        for method in METHODS:
+            for emode in ("none", "E", "EM"):
+                for kind in ("dense", "mv", "add"):
+                    out.append({"group": "directed_vecbatch", "seed": sub_seed(seed, "c01d", k), "method": method, "opkind": kind,
+                                "emode": emode, "batch": 0, "BA": [n], "BB": [], "dtype": "float64", "spectrum": "spd", "n": n,
+                                "ncols": n, "tol": "default", "special": None, "kappa": 3.0})
+                    k += 1
     return out
 
 
@@ -108,6 +120,8 @@ def run_case(desc):
     n, ncols = desc["n"], desc["ncols"]
     method, kind, emode, spectrum = desc["method"], desc["opkind"], desc["emode"], desc["spectrum"]
     BA, BB, BE, BM = gen.BATCH_TUPLES_4[desc["batch"]]
+    if "BA" in desc:
+        BA, BB = tuple(desc["BA"]), tuple(desc["BB"])
     # ---- constraints between dimensions (documented in RULE)
     if kind == "jac":
         BA = ()
@@ -120,7 +134,17 @@ def run_case(desc):
     if emode == "E":
         BM = ()
     hermitian_only = method == "cg" and kind in ("herm_mv", "add_herm")
-    A = gen.make_matrix(spectrum, n, BA, dt, desc["kappa"], rng, tgen)
+    if kind in ("herm_mv", "add_herm") and spectrum == "nonherm_pd":
+        spectrum = "spd"
+    if spectrum == "nonherm_pd":
+        # positive-definite Hermitian part plus a skew part of at most half its smallest eigenvalue
+        P = gen.make_matrix("spd", n, BA, dt, desc["kappa"], rng, tgen)
+        K = torch.randn(*BA, n, n, dtype=dt, generator=tgen)
+        K = K - K.transpose(-2, -1).conj()
+        K = K / (torch.linalg.matrix_norm(K, ord=2)[..., None, None] + 1e-30) * 0.5
+        A = P + K
+    else:
+        A = gen.make_matrix(spectrum, n, BA, dt, desc["kappa"], rng, tgen)
     M = None
     if emode == "EM":
         M = gen.make_matrix("spd", n, BM, dt, 5.0, rng, tgen)
@@ -132,7 +156,7 @@ def run_case(desc):
     if emode != "none":
         scale = 1.0
         for attempt in range(8):
-            if dt.is_complex and not hermitian_only and (method not in ("cg",) or kind not in ("herm_mv", "add_herm")) and rng.random() < 0.6 and not (method == "cg"):
+            if dt.is_complex and rng.random() < 0.6 and attempt < 6:
                 E = torch.randn(*BE, ncols, dtype=dt, generator=tgen) * scale
             else:
                 E = (torch.randn(*BE, ncols, dtype=rdt, generator=tgen) * scale).to(dt)
@@ -231,11 +255,14 @@ def run_case(desc):
         R = AX - MX * E.unsqueeze(-2) - B
     else:
         R = AX - B
-    rn = torch.linalg.vector_norm(R, dim=-2)               # (..., ncols)
-    bn = torch.linalg.vector_norm(B.expand(*full_b, n, ncols), dim=-2)
+    rn = torch.linalg.vector_norm(R, dim=-2).double()      # (..., ncols)
+    bn = torch.linalg.vector_norm(B.expand(*full_b, n, ncols), dim=-2).double()
     eps = torch.finfo(rdt).eps
-    normal_eq = eff_method == "cg" and not (Aop.is_hermitian and (Mop is None or Mop.is_hermitian))
-    xn = torch.linalg.vector_norm(Xf, dim=-2)
+    herm_cfg = Aop.is_hermitian and (Mop is None or Mop.is_hermitian)
+    e_real = E is None or (not E.is_complex()) or float(E.imag.abs().max()) == 0.0
+    # cg needs a Hermitian system: otherwise (operator not flagged Hermitian, or complex shifts) the normal equations are used
+    normal_eq = eff_method == "cg" and not (herm_cfg and e_real)
+    xn = torch.linalg.vector_norm(Xf, dim=-2).double()
     An = float(torch.linalg.matrix_norm(S, ord=2).max())
     if eff_method in ("exactsolve", "custom_exactsolve"):
         bound = 200 * eps * kap * (An * xn + bn) + 1e-300
@@ -262,7 +289,7 @@ def run_case(desc):
         Sx = S.expand(*full_b, ncols, n, n) if E is not None else S.expand(*full_b, 1, n, n).expand(*full_b, ncols, n, n)
         Bx = B.expand(*full_b, n, ncols).transpose(-2, -1).unsqueeze(-1)            # (..., ncols, n, 1)
         Xref = torch.linalg.solve(Sx, Bx).squeeze(-1).transpose(-2, -1)             # (..., n, ncols)
-        en = torch.linalg.vector_norm(Xf - Xref, dim=-2)
+        en = torch.linalg.vector_norm(Xf - Xref, dim=-2).double()
         if bound is not None:
             ebound = bound / smin + 200 * eps * kap * (xn + 1e-300)
         else:
@@ -275,25 +302,29 @@ def run_case(desc):
     total_unknowns = n * ncols
     for b in full_b:
         total_unknowns *= b
-    herm_cfg = Aop.is_hermitian and (Mop is None or Mop.is_hermitian)
-    e_real = E is None or (not E.is_complex()) or float(E.imag.abs().max()) == 0.0
     spd_shifted = False
     if spectrum == "spd" and e_real and herm_cfg:
         ev = torch.linalg.eigvalsh(0.5 * (S + S.transpose(-2, -1).conj()))
         spd_shifted = float(ev.min()) > 0
+    pd_shifted = False
+    if spectrum == "nonherm_pd":
+        ev = torch.linalg.eigvalsh(0.5 * (S + S.transpose(-2, -1).conj()))
+        pd_shifted = float(ev.min()) > 0.5
     must_silent = False
     if eff_method in ("exactsolve", "custom_exactsolve"):
         must_silent = True
     elif eff_method == "cg":
         must_silent = (herm_cfg and spd_shifted) or (normal_eq and kap <= 6.0)
     elif eff_method == "bicgstab":
-        must_silent = n >= 2 and ((spectrum == "spd" and spd_shifted) or (spectrum == "nonherm" and kap <= 12.0))
+        must_silent = (spectrum == "spd" and spd_shifted) or (spectrum == "nonherm_pd" and pd_shifted)
     elif eff_method == "broyden1":
         must_silent = total_unknowns <= 40
     if f32 and eff_method not in ("exactsolve", "custom_exactsolve"):
         must_silent = must_silent and kap <= 10
-    if desc["special"] in ("zeroB", "tinyB"):
-        must_silent = eff_method != "gmres"
+    if desc["special"] == "zeroB":
+        must_silent = True
+    if desc["special"] == "tinyB":
+        must_silent = eff_method in ("exactsolve", "custom_exactsolve", "cg", "bicgstab")
     if must_silent:
         obs.count("must_silent_cases")
         obs.check(not warned, "not_silent:%s:%s:%s%s" % (eff_method, emode, spectrum, ":normaleq" if normal_eq else ""),
